@@ -3,6 +3,8 @@ CONSTANTS
   MaxTx = 6
   MaxCores = 3
   MinBatch = 2
+  ItemCap = 2
+  BlockingAdd = TRUE
   FlushRemainder = TRUE
 INVARIANTS VerdictCorrect EverySigChecked NoSendAfterClose
 CHECK_DEADLOCK FALSE
